@@ -1222,3 +1222,85 @@ func c16StatementsEmit(w *World, r *Result, backends map[string]*Backend) {
 		}
 	}
 }
+
+// BatchJumpRule: in the Batch back end a loop is a label at its head, a jump back to it at its
+// end and a label behind that jump. break leaves the loop: its jump goes to a label of the
+// family the closer defines behind the back jump; continue starts the next iteration: its
+// jump (like the closer's) goes to a label of the family the opener defines. A break that
+// jumps to the head label repeats the loop, a continue that jumps behind it ends it.
+func BatchJumpRule(w *World, b *Backend, r *Result, rule string) {
+	resolve := func(t Tmpl) []Tmpl {
+		outs := []Tmpl{{}}
+		for _, p := range t {
+			var alts []Tmpl
+			if h, ok := p.(Hole); ok && strings.HasPrefix(h.Origin, "field:") {
+				for _, s := range b.X.ResolveStack(h.Origin) {
+					vs, _ := s.Expand(16)
+					alts = append(alts, vs...)
+				}
+			}
+			if len(alts) == 0 {
+				alts = []Tmpl{{p}}
+			}
+			var next []Tmpl
+			for _, o := range outs {
+				for _, a := range alts {
+					next = append(next, cat(o, a))
+				}
+			}
+			outs = next
+		}
+		return outs
+	}
+	defs := map[string]map[string]bool{}  // method -> label families it defines
+	gotos := map[string]map[string]bool{} // method -> families it jumps to
+	pos := map[string]string{}
+	for _, l := range b.Lines {
+		if l.Batch == nil || l.Em.Helper != "" {
+			continue
+		}
+		m := l.Method
+		if pos[m] == "" {
+			pos[m] = w.Pos(l.Em.Pos)
+		}
+		for _, t := range resolve(l.Variant) {
+			if l.Batch.LabelDef != "" {
+				if defs[m] == nil {
+					defs[m] = map[string]bool{}
+				}
+				defs[m][labelFamily(t)] = true
+			}
+			if len(l.Batch.Gotos) > 0 {
+				for _, f := range labelRefText(t) {
+					if gotos[m] == nil {
+						gotos[m] = map[string]bool{}
+					}
+					gotos[m][f] = true
+				}
+			}
+		}
+	}
+	head, tail := defs["ForStart"], defs["ForEnd"]
+	if len(head) == 0 || len(tail) == 0 {
+		r.Bad(rule, "jump:batch:labels", "-", fmt.Sprintf("cannot find the labels of a loop (opener defines %v, closer defines %v)", keys(head), keys(tail)))
+		return
+	}
+	check := func(method string, want map[string]bool, what, wrong string) {
+		key := "jump:batch:" + method
+		gs := gotos[method]
+		if len(gs) == 0 {
+			r.Bad(rule, key, pos[method], method+" emits no jump")
+			return
+		}
+		for f := range gs {
+			if !want[f] {
+				r.Bad(rule, key, pos[method], fmt.Sprintf("%s jumps to %s, which is not %s (%v): %s", method, f, what, keys(want), wrong))
+				return
+			}
+		}
+		r.Ok(rule, key, pos[method], fmt.Sprintf("%s jumps to %v, %s", method, keys(gs), what))
+	}
+	check("Break", tail, "a label the loop's closer defines behind its back jump", "the loop is not left")
+	check("Continue", head, "a label the loop's opener defines at its head", "the next iteration is not started")
+	check("ForEnd", head, "a label the loop's opener defines at its head", "the loop does not repeat")
+}
